@@ -228,6 +228,9 @@ pub fn install_panic_hook() {
             eprintln!("ABORTING PANIC in run {}: {} @ {}", index, msg, loc);
         } else if GUARD_DEPTH.with(|d| d.get()) == 0 {
             eprintln!("HARNESS PANIC: {} @ {}", msg, loc);
+            if std::env::var_os("VERIF_DEBUG_BACKTRACE").is_some() {
+                eprintln!("{}", std::backtrace::Backtrace::force_capture());
+            }
         }
         LAST_PANIC.with(|p| *p.borrow_mut() = Some(format!("{} @ {}", msg, loc)));
     }));
@@ -274,12 +277,42 @@ unsafe extern "C" fn on_death() {
     }
 }
 
-/// Under ASan: when the sanitizer kills the process, leave a note saying
-/// which run of which property was executing on the faulting thread.
+// Fatal signals (a segfault, or glibc aborting on a corrupted heap after the
+// code under test wrote outside a buffer): leave the same note, then die
+// the default way. `signal`/`raise` come from the C library std links anyway.
+extern "C" {
+    fn signal(signum: i32, handler: usize) -> usize;
+    fn raise(signum: i32) -> i32;
+}
+
+extern "C" fn on_fatal_signal(sig: i32) {
+    let (seed, index) = CURRENT_RUN.with(|c| c.get());
+    if let (Some(f), Some(p)) = (DEATH_FILE.get(), DEATH_PROP.get()) {
+        if !std::path::Path::new(f).exists() {
+            let _ = std::fs::write(f, format!("{} {} {}\n", p, seed, index));
+        }
+    }
+    unsafe {
+        signal(sig, 0); // SIG_DFL
+        raise(sig);
+    }
+}
+
+/// When the process is killed (sanitizer, aborting panic, fatal signal),
+/// leave a note saying which run of which property was executing on the
+/// faulting thread.
 pub fn install_death_note(prop: &str, file: Option<String>) {
     let _ = DEATH_PROP.set(prop.to_string());
     if let Some(f) = file {
         let _ = DEATH_FILE.set(f);
+        if !cfg!(miri) {
+            unsafe {
+                for sig in [11, 6, 7, 4] {
+                    // SIGSEGV, SIGABRT, SIGBUS, SIGILL
+                    signal(sig, on_fatal_signal as extern "C" fn(i32) as usize);
+                }
+            }
+        }
     }
     #[cfg(feature = "asan")]
     unsafe {
